@@ -251,3 +251,165 @@ pub mod attr_app {
         }
     }
 }
+
+// --- a deliberately *incompletely registered* app ---------------------------------------------
+//
+// Enums nested in the event, the view model and a custom capability's output, one of them behind
+// Option<Vec<_>>, none of them registered on its own (the capability keeps the default
+// `register_types`). serde-reflection then knows only the first variant of each, and the type
+// generator must refuse to generate rather than hand out a truncated schema.
+
+pub mod partial_app {
+    use crux_core::capability::{CapabilityContext, Operation};
+    use crux_core::macros::{Capability, Effect, Export};
+    use crux_core::render::{render, Render};
+    use crux_core::Command;
+    use serde::{Deserialize, Serialize};
+
+    #[derive(Serialize, Deserialize, Debug, Clone, Copy, Default, PartialEq, Eq)]
+    pub enum Colour {
+        #[default]
+        Red,
+        Green,
+        Blue,
+    }
+
+    #[derive(Serialize, Deserialize, Debug, Clone, Copy, Default, PartialEq, Eq)]
+    pub enum Shade {
+        #[default]
+        Light,
+        Dark,
+    }
+
+    #[derive(Serialize, Deserialize, Debug, Clone, PartialEq, Eq)]
+    pub enum Tag {
+        Plain,
+        Numbered(u8),
+        Final,
+    }
+
+    #[derive(Serialize, Deserialize, Debug, Clone, Copy, PartialEq, Eq)]
+    pub enum Grade {
+        Low,
+        Mid,
+        High,
+    }
+
+    #[derive(Clone, Debug, PartialEq, Eq, Serialize, Deserialize)]
+    pub struct GaugeOp {
+        pub channel: u8,
+    }
+
+    #[derive(Clone, Debug, PartialEq, Eq, Serialize, Deserialize)]
+    pub struct GaugeOut {
+        pub grade: Grade,
+        pub note: String,
+    }
+
+    // default register_types: registers GaugeOp and GaugeOut, not Grade
+    impl Operation for GaugeOp {
+        type Output = GaugeOut;
+    }
+
+    #[derive(Capability)]
+    pub struct Gauge<Ev> {
+        context: CapabilityContext<GaugeOp, Ev>,
+    }
+
+    impl<Ev> Gauge<Ev>
+    where
+        Ev: 'static,
+    {
+        pub fn new(context: CapabilityContext<GaugeOp, Ev>) -> Self {
+            Self { context }
+        }
+
+        #[allow(dead_code)]
+        pub fn read<F>(&self, channel: u8, callback: F)
+        where
+            F: FnOnce(GaugeOut) -> Ev + Send + Sync + 'static,
+        {
+            self.context.spawn({
+                let context = self.context.clone();
+                async move {
+                    let out = context.request_from_shell(GaugeOp { channel }).await;
+                    context.update_app(callback(out));
+                }
+            });
+        }
+    }
+
+    #[derive(Serialize, Deserialize, Debug)]
+    pub enum Event {
+        Reset,
+        Pick(Colour),
+        Shade(Shade),
+        Tags(Option<Vec<Tag>>),
+        Ask(GaugeOp),
+        Got(GaugeOut),
+    }
+
+    #[derive(Default)]
+    pub struct Model {
+        colour: Colour,
+        shade: Shade,
+        tags: Option<Vec<Tag>>,
+        last: Option<GaugeOut>,
+    }
+
+    #[derive(Serialize, Deserialize, Debug)]
+    pub struct ViewModel {
+        pub colour: Colour,
+        pub shade: Shade,
+        pub tags: Option<Vec<Tag>>,
+        pub last: Option<GaugeOut>,
+    }
+
+    #[derive(Effect, Export)]
+    #[allow(dead_code)]
+    pub struct Capabilities {
+        pub render: Render<Event>,
+        pub gauge: Gauge<Event>,
+    }
+
+    #[derive(Default)]
+    pub struct PartialApp;
+
+    impl crux_core::App for PartialApp {
+        type Event = Event;
+        type Model = Model;
+        type ViewModel = ViewModel;
+        type Capabilities = Capabilities;
+        type Effect = Effect;
+
+        fn update(&self, event: Event, model: &mut Model, _caps: &Capabilities) -> Command<Effect, Event> {
+            match event {
+                Event::Reset => {
+                    *model = Model::default();
+                    render()
+                }
+                Event::Pick(c) => {
+                    model.colour = c;
+                    render()
+                }
+                Event::Shade(s) => {
+                    model.shade = s;
+                    render()
+                }
+                Event::Tags(t) => {
+                    model.tags = t;
+                    render()
+                }
+                Event::Ask(op) => Command::request_from_shell(op).then_send(Event::Got),
+                Event::Got(out) => {
+                    model.last = Some(out);
+                    render()
+                }
+            }
+        }
+
+        fn view(&self, model: &Model) -> ViewModel {
+            ViewModel { colour: model.colour, shade: model.shade, tags: model.tags.clone(), last: model.last.clone() }
+        }
+    }
+}
